@@ -705,5 +705,45 @@ fn main() {
         f64_int_space(&ctx, 4, z3(), "{0,1,-1}");
         exact_space(&ctx, 4, z3(), "{0,1,-1}");
     }
+    // Known findings (known_findings.txt): (1) Complex<f64> beyond |z| ~ 1e154 / below ~ 1e-154: Complex::abs and the complex
+    // division form re^2 + im^2 unscaled, so pivot moduli are inf / 0 and quotients NaN; the division is generic over the
+    // element type and cannot be made robust without a new trait method - not a small patch. (2) Wilkinson's matrix: partial
+    // pivoting has growth 2^(n-1), the backward error is 3.5e-2 at n = 60 - inherent to the algorithm the crate uses.
+    {
+        let cplx = |scale: f64, basic: bool| -> Result<(), String> {
+            let mut a = Matrix::<Cmplx>::new(2, 2, Cmplx::new(0.0, 0.0));
+            a[(0, 0)] = Cmplx::new(scale, scale);
+            a[(0, 1)] = Cmplx::new(2.0 * scale, 0.0);
+            a[(1, 0)] = Cmplx::new(3.0 * scale, 0.0);
+            a[(1, 1)] = Cmplx::new(4.0 * scale, -scale);
+            // b = A (1, i)
+            let b = Vector::create(vec![Cmplx::new(scale, 3.0 * scale), Cmplx::new(4.0 * scale, 4.0 * scale)]);
+            let x = if basic { a.solve_basic(&b) } else { a.solve_lu(&b) };
+            let err = (x[0].real - 1.0).abs() + x[0].imag.abs() + x[1].real.abs() + (x[1].imag - 1.0).abs();
+            ensure!(err <= 1e-12, "x = {:?} but the solution is (1, i)", x.vec);
+            Ok(())
+        };
+        let wilk = |n: usize, basic: bool| -> Result<(), String> {
+            let a: F = (0..n).map(|i| (0..n).map(|j| if j == n - 1 || i == j { 1.0 } else if j < i { -1.0 } else { 0.0 }).collect()).collect();
+            let b: Vec<f64> = (0..n).map(|i| ((i % 3) as f64) - 1.0 + 0.5).collect();
+            let bv = Vector::create(b.clone());
+            let mut m = model::to_mat64(&a);
+            let x = if basic { m.solve_basic(&bv) } else { m.solve_lu(&bv) };
+            let e = model::backward_error(&a, &x.vec, &b);
+            ensure!(e <= BE_THRESHOLD, "normwise backward error {:e}", e);
+            Ok(())
+        };
+        ctx.known_cases(
+            "listed inputs: Complex<f64> systems of extreme magnitude, Wilkinson's growth matrix",
+            vec![
+                ("extreme-complex solve_basic 1e200*[[1+i,2],[3,4-i]] x = 1e200*A(1,i)".to_string(), Box::new(move || cplx(1e200, true))),
+                ("extreme-complex solve_lu 1e200*[[1+i,2],[3,4-i]] x = 1e200*A(1,i)".to_string(), Box::new(move || cplx(1e200, false))),
+                ("extreme-complex solve_basic 1e-200*[[1+i,2],[3,4-i]] x = 1e-200*A(1,i)".to_string(), Box::new(move || cplx(1e-200, true))),
+                ("extreme-complex solve_lu 1e-200*[[1+i,2],[3,4-i]] x = 1e-200*A(1,i)".to_string(), Box::new(move || cplx(1e-200, false))),
+                ("wilkinson-growth solve_basic n=60".to_string(), Box::new(move || wilk(60, true))),
+                ("wilkinson-growth solve_lu n=60".to_string(), Box::new(move || wilk(60, false))),
+            ],
+        );
+    }
     std::process::exit(ctx.finish());
 }
